@@ -5,7 +5,8 @@ import ast
 
 from ..core import (AnalysisError, dotted, unparse, calls_in, call_name,
                     walk_no_defs, parent, ancestors, ClassInfo, FuncInfo)
-from ..flow import guards_at, flatten_guards
+from ..flow import guards_at, flatten_guards, SeqFlow, RETURN
+from .. import guardspec
 from ..tables import tables_of, cdict_lookup
 from ..mutate import Mutant, in_func
 from . import c18, c14, c16, c06, c08, c15
@@ -317,6 +318,93 @@ def rule_r3(prog, res):
                         'use different encodings' % nm)
 
 
+# ------------------------------------------------------------------- R8
+def _attach_kind(call):
+    """'Header' / 'Body' when the call attaches that child to the envelope
+    (ctx.out_document)."""
+    nm = call_name(call)
+    if nm == 'SubElement' and len(call.args) >= 2 and \
+            unparse(call.args[0]).endswith('out_document'):
+        t = unparse(call.args[1])
+        for k in ('Header', 'Body'):
+            if k in t:
+                return k
+    if nm in ('append', 'extend') and isinstance(call.func, ast.Attribute) \
+            and unparse(call.func.value).endswith('out_document') and \
+            call.args:
+        t = unparse(call.args[0]).lower()
+        for k in ('Header', 'Body'):
+            if k.lower() in t:
+                return k
+    return None
+
+
+def rule_r8(prog, res):
+    res.rule('R8', 'the SOAP envelope receives Header before Body on every '
+             'path of serialize')
+    n = 0
+    for cfq in ('spyne.protocol.soap.soap11:Soap11',
+                'spyne.protocol.soap.soap12:Soap12'):
+        c = prog.cls(cfq, required=False)
+        f = c.methods.get('serialize') if c is not None else None
+        if f is None:
+            continue
+
+        def classify(call):
+            k = _attach_kind(call)
+            return ((k,), False) if k else ((), False)
+        seqs = SeqFlow(classify, loop_unroll=1).run(f.node)
+        paths = seqs.get(RETURN, set())
+        kinds = {e for q in paths for e in q}
+        n += len(kinds)
+        bad = sorted(q for q in paths if 'Header' in q and 'Body' in q and
+                     q.index('Body') < q.index('Header'))
+        res.ob('R8', f.where, '%s: attach orders seen on returning paths: %s'
+               % (f.qualname, sorted({' > '.join(q) or '(none)'
+                                      for q in paths})),
+               'VIOLATED' if bad else 'ok', nontrivial=True)
+        if bad:
+            res.finding('R8', '%s|body-before-header' % f.qualname, f.where,
+                        '%s attaches soap Body to the envelope before soap '
+                        'Header: the envelope children come out as (Body, '
+                        'Header), which the SOAP 1.1 schema and strict '
+                        'clients reject' % f.qualname)
+        miss = [q for q in paths if 'Body' not in q]
+        if miss:
+            res.finding('R8', '%s|body-not-attached' % f.qualname, f.where,
+                        'a returning path of %s never attaches the Body '
+                        'element to the envelope' % f.qualname)
+    res.floor('R8', 'envelope attach kinds (Header, Body)', n, 2)
+
+
+# ------------------------------------------------------------------- R9
+XML_VALUE_NAMES = {'inst', 'subvalue', 'value', 'v', 'val', 'subinst',
+                   'sub_value', 'string', 'retval'}
+
+
+def rule_r9(prog, res):
+    res.rule('R9', 'XML writers decide presence with "is None", never by '
+             'truthiness')
+    funcs = []
+    for cfq in ('spyne.protocol.xml:XmlDocument',
+                'spyne.protocol.soap.soap11:Soap11',
+                'spyne.protocol.cloth.to_parent:ToParentMixin'):
+        c = prog.cls(cfq, required=False)
+        if c is None:
+            continue
+        for nm, f in sorted(c.methods.items()):
+            if nm.endswith('_to_parent') or nm in (
+                    'to_parent', 'gen_members_parent', 'serialize',
+                    '_get_members_etree', '_gen_members_parent'):
+                funcs.append(f)
+    n = guardspec.presence_rule(
+        res, 'R9', funcs, XML_VALUE_NAMES,
+        'a falsy but present value ("" 0 False [] Decimal(0)) is written as '
+        'absent, so the response differs from the returned object')
+    res.count('xml_writer_functions', len(funcs))
+    res.floor('R9', 'identity tests on values in XML writers', n, 4)
+
+
 def rule_shared(prog, res, tier):
     res.rule('R4', 'the user function runs exactly once (C14-R2)')
     res.rule('R5', 'wire order is declaration order, parents first (C16-R1, '
@@ -343,6 +431,12 @@ def rule_shared2(prog, res):
     res.share('R6', 'primitive text codecs keep fractions, signs and '
               'lexical spaces (C08-R3/R4/R5)', 'C08', c08.rule_r5, prog,
               Result)
+    res.share('R6', 'primitive text codecs keep fractions, signs and '
+              'lexical spaces (C08-R3/R4/R5)', 'C08', c08.rule_r9, prog,
+              Result)
+    res.share('R6', 'primitive text codecs keep fractions, signs and '
+              'lexical spaces (C08-R3/R4/R5)', 'C08', c08.rule_r8, prog,
+              Result)
     res.share('R7', 'field evolution invalidates the flattened type info '
               'that reader and writer share (C15-R2)', 'C15', c15.rule_r2,
               prog, Result)
@@ -354,6 +448,8 @@ def run(prog, res, tier):
     res.run_rule(rule_r2, prog, res, tier)
     res.run_rule(rule_r3, prog, res)
     res.run_rule(rule_shared, prog, res, tier)
+    res.run_rule(rule_r8, prog, res)
+    res.run_rule(rule_r9, prog, res)
 
 
 _X = 'spyne/protocol/xml.py'
@@ -361,6 +457,20 @@ _S = 'spyne/protocol/soap/soap11.py'
 _A = 'spyne/application.py'
 
 MUTANTS = [
+    Mutant('soap-body-attached-first', 'R8', 'fire', _S,
+           in_func('Soap11.serialize', "            # header\n",
+                   "            ctx.out_document.append(ctx.out_body_doc)\n"
+                   "            # header\n"), 'body-before-header'),
+    Mutant('soap-body-attached-by-extend', 'R8', 'benign', _S,
+           in_func('Soap11.serialize',
+                   "ctx.out_document.append(ctx.out_body_doc)",
+                   "ctx.out_document.extend([ctx.out_body_doc])"), None),
+    Mutant('xmlattr-truthiness', 'R9', 'fire', _X,
+           in_func('XmlDocument.xmlattribute_to_parent',
+                   "if inst is not None:", "if inst:"), 'truthiness'),
+    Mutant('xmlattr-identity-rewritten', 'R9', 'benign', _X,
+           in_func('XmlDocument.xmlattribute_to_parent',
+                   "if inst is not None:", "if not (inst is None):"), None),
     Mutant('xml-bare-not-unwrapped', 'R1', 'fire', _X,
            in_func('XmlDocument.serialize',
                    "                result_inst, = ctx.out_object",
